@@ -569,6 +569,11 @@ func init() {
 				// unsupported encodings are consumed: PC past the fetched bytes, R advanced, nothing else
 				return classify(Enc{job.Params[0], job.Params[1]}) == "invalid" && !inSet(a, "rmw-order")
 			}
+			if job.Harness == "VC08Script" {
+				// C12's clause is only that Run returns (normally) once its program halts;
+				// what it returns and in which state is C08's subject
+				return a == "nopanic" || a == "returns-once-halted"
+			}
 			return true
 		},
 		Post: func(c *CheckCtx) {
